@@ -185,6 +185,8 @@ def reuse_probe(ctx: Ctx, rng) -> None:
     """post-selection as configured at call time: one PostSelection object is used for sampling, gets a
     further rule, and is used again (sample_N_inputs and sample_N_outputs)"""
     for _ in range(ctx.n(6, 60)):
+        if ctx.out_of_time():
+            break
         case = None
         while case is None:
             case = gen_case(ctx, rng)
@@ -227,6 +229,8 @@ def stat_test(ctx: Ctx, rng) -> None:
     from scipy.stats import chi2
 
     for _ in range(ctx.n(3, 25)):
+        if ctx.out_of_time():
+            break
         case = None
         while case is None:
             case = gen_case(ctx, rng)
